@@ -24,7 +24,7 @@ CHECKS = {
  "C02": ("exploration",
          "proptest grammar-based generation of requests x enumerated/sampled read segmentations; oracle = generating spec (faithfulness), metamorphic equality across segmentations, round-trip through a strict reference request parser",
          "Requests generated from the supported HTTP/1.x grammar (5 methods, query, 0..40 headers incl. repeated names/non-ASCII values, Cookie, X-Forwarded-For with/without spaces, Content-Length bodies to 64 KiB) are parsed by Request::from_stream over a scripted reader under whole / byte-wise / every single split (short messages) or 64 biased splits / random multi-split plans. The parse must equal the spec, be identical under every plan, and Vec<u8>::from(Request) must be accepted by an independent strict parser as the same request and re-parse equal. Sampled, with measured class histogram in the evidence.",
-         "Trusts the in-memory scripted reader as a model of read boundaries and the reference request parser in common/http.rs. Sync parser only so far (tokio twin pending).",
+         "Trusts the in-memory scripted reader as a model of read boundaries and the reference request parser in common/http.rs. Both parsers: the sync one in crate hv and the tokio one (async Request::from_stream over a scripted AsyncRead that returns Pending between plan steps) in crate hvt; the evidence file merges both runs (labels prefixed `tokio:`).",
          "DESIGN.md §5 C02"),
  "C07": ("exploration",
          "proptest generation + bounded-exhaustive chunk compositions, validated by a strict reference response parser/encoder (round-trip + differential), scripted loopback servers for the client",
@@ -64,7 +64,7 @@ CHECKS = {
  "C04": ("exploration",
          "proptest generation of application configurations and requests, differential against a reference router over real loopback sockets",
          "Generated applications (0..4 host sub-apps with literal / wildcard host patterns, 0..6 HTTP and 0..3 WebSocket routes each, plus a default app; patterns over a tiny segment alphabet so they overlap and shadow) are started as a real App on loopback; 30 requests each (Host absent / exact / wildcard-matching / with port / non-matching / matching several hosts; paths matching several, one or no route; optional query; plain and WebSocket upgrade). Each handler answers with its identity; a reference router built on the reference glob matcher predicts the handler by the stated rule (first matching host, first matching route in it, else first matching default route, else 404 / connection closed without upgrade).",
-         "Trusts the reference router and glob matcher. Threaded runtime only so far (tokio twin pending).",
+         "Trusts the reference router and glob matcher. Both runtimes: threaded App (crate hv) and tokio App with async handlers (crate hvt), merged into one evidence file.",
          "DESIGN.md §5 C04"),
  "C01": ("exploration",
          "stateful proptest generation of connection scripts x client write segmentations against a real App on loopback; oracle = reference connection model + strict reference response parser; probe-based (not timeout-based) keep-alive/close decisions; handler-side dispatch log",
@@ -94,7 +94,7 @@ CHECKS = {
  "C20": ("exploration",
          "proptest generation of traffic states and signal timings against a real App on loopback; oracle = bounded-time return of run, immediate re-bind, complete responses for requests whose handler had started",
          "Scenarios with 0..16 connections each just accepted / idle keep-alive / half-sent / short handler / handler blocked on a harness gate / 6 MB response with a stalled reader / WebSocket open, pools of 1..8 threads (often fully occupied with queued connections), the signal sent before the first connection (even before run), after the states are established, or concurrently with a burst of connects, on 127.0.0.x, 0.0.0.0 and [::] with explicit ports. Before the signal a probe must be served (when a worker is free); after it App::run must return Ok within 10 s (on expiry one extra connection is made to pinpoint a lost wake-up), the same address must bind again immediately, and every request whose handler had started before the signal must still receive its complete response once the gate opens.",
-         "Timing is sampled, not controlled; bounded time is the property, judged with a 10 s margin. Requests that were sent but whose handler had not started at the signal (still in the listen backlog or queued) are not required to be answered. Threaded runtime only so far.",
+         "Timing is sampled, not controlled; bounded time is the property, judged with a 10 s margin. Requests that were sent but whose handler had not started at the signal (still in the listen backlog or queued) are not required to be answered. Both runtimes: threaded (Receiver) and tokio (CancellationToken; the runtime is kept alive after run returns so in-flight tasks can finish).",
          "DESIGN.md §5 C20"),
  "C08": ("exploration",
          "stateful proptest generation of pool scenarios (workers, tasks with panic flags, lifecycle) run on the real scheduler with generated delays; history invariants over start/finish records, witness batch, thread-exit guards",
@@ -146,7 +146,9 @@ def main():
         },
         "engines": [
             {"name": "hv", "path": "/verif/harness", "serves_properties": [c["property_id"] for c in checks],
-             "kind_free_text": "Rust binary: proptest-driven random generation with shrinking, bounded-exhaustive enumeration, reference models/oracles, replay files, evidence writer"},
+             "kind_free_text": "Rust binary: proptest-driven random generation with shrinking, bounded-exhaustive enumeration, reference models/oracles, isolated worker processes, replay files, evidence writer"},
+            {"name": "hvt", "path": "/verif/harness-tokio", "serves_properties": ["C02", "C04", "C20"],
+             "kind_free_text": "Rust binary built against humphrey with feature `tokio`: the tokio-runtime twins, sharing engine / generators / oracles with hv through #[path] includes; its summary is merged into the property's evidence by hv"},
         ],
         "checks": checks,
         "not_applicable": [{"property_id": i, "reason": NOT_YET} for i in ids if i not in CHECKS],
